@@ -5,7 +5,9 @@ import (
 	"errors"
 	"fmt"
 	"math"
+	"otterverif/internal/conc"
 	"sort"
+	"strings"
 	"time"
 
 	"github.com/maypok86/otter/v2"
@@ -132,6 +134,7 @@ type Coverage struct {
 	Evictions     int64
 	Sweeps        int64
 	SweepChecked  int64
+	Audits        int64 // structural audits (hook VerifAudit) after CleanUp
 	StaleReads    int64
 	SaturatedAdds int64
 	Iterations    int64
@@ -438,16 +441,16 @@ func (r *Runner) Step(op *Op) []Mismatch {
 
 // preView is what the model knows before the operation runs.
 type preView struct {
-	live      *ent // live entry of op.Key (copy)
-	phys      *ent
-	expHidden bool // physically present but expired
-	keysLive  map[int]*ent
-	keysStale map[int]bool
+	live        *ent // live entry of op.Key (copy)
+	phys        *ent
+	expHidden   bool // physically present but expired
+	keysLive    map[int]*ent
+	keysStale   map[int]bool
 	keysExpired map[int]bool // requested keys whose entry had expired but was not swept
-	distinct  []int
-	expHits   int64
-	expMisses int64
-	now       int64
+	distinct    []int
+	expHits     int64
+	expMisses   int64
+	now         int64
 }
 
 func (m *Model) preState(op *Op) *preView {
@@ -1270,6 +1273,18 @@ func (r *Runner) audit(op *Op) {
 	if n := c.EstimatedSize(); n != len(m.phys) {
 		m.fail("views", "after %s: EstimatedSize()=%d, the model holds %d entries not reported as removed", op, n, len(m.phys))
 		return
+	}
+	if op.Kind == OpCleanUp && !m.cfg.Queued {
+		// maintenance has just run in this goroutine: the structural audit of the policies (white box, hook VerifAudit)
+		if s := (&conc.Trial{}).CheckAudit(c.VerifAudit(), true); s != "" {
+			class := "views"
+			if strings.Contains(s, "timer wheel") {
+				class = "wheel" // an entry without (or with a stray) timer: it is never swept - also a C13 matter
+			}
+			m.fail(class, "after %s: %s", op, s)
+			return
+		}
+		r.Cov.Audits++
 	}
 	if (op.Kind == OpViews || r.OpsOK%7 == 0) && (!m.cfg.Queued || op.Kind == OpCleanUp) {
 		wantMax := m.max
